@@ -28,6 +28,7 @@ CONSTANTS
   SwDropForeign,      \* F16: require/ensure return the checker found on the stack instead of what they were given
   SwWrapByLast,       \* F5: member wrapping decided by the last invariant only
   SwRebindWrapped,    \* F18a: an inherited member that is already wrapped is bound again in the subclass dictionary
+  SwShareGroups,      \* F17: the merged precondition list of a subclass holds the base's group list objects themselves
   SwShadow            \* F18b: a wrapper bound in a class dictionary shadows, for subclasses with several bases,
                       \*       definitions that come later in the method resolution order
 
@@ -109,7 +110,9 @@ ApplyDeco(fh, lh, f, d) ==
              c   == IF mk THEN Len(fh) + 1 ELSE chk
              out == IF mk \/ SwDropForeign THEN c ELSE f
          IN
-         IF d.d = "require"
+         IF d.d = "require" /\ Len(lh1[fh1[c].pre]) > 1
+           THEN [fh |-> fh, lh |-> lh, f |-> f, err |-> "AssertionError"]     \* merged groups: no further precondition
+         ELSE IF d.d = "require"
            THEN \* first group created on demand, then append
                 LET outer == fh1[c].pre
                     lh2 == IF lh1[outer] = <<>> THEN [Append(lh1, <<>>) EXCEPT ![outer] = <<Len(lh1) + 1>>] ELSE lh1
@@ -182,6 +185,10 @@ BaseLists(ch, fh, lh, bases, name, acc) ==
 
 DupSnap(lh, snaps) == \E i, j \in DOMAIN snaps : i < j /\ CON(snaps[i]).name = CON(snaps[j]).name
 
+\* append copies of the lists ids[i..n] to the heap
+RECURSIVE CopyLists(_, _, _, _)
+CopyLists(lh, ids, i, n) == IF i > n THEN lh ELSE CopyLists(Append(lh, lh[ids[i]]), ids, i + 1, n)
+
 \* decorate one namespace entry; returns [fh, lh, ns, err]
 MetaMember(fh, lh, nsp, name) ==
   LET mem  == nsp[name]
@@ -205,9 +212,14 @@ MetaMember(fh, lh, nsp, name) ==
   ELSE IF ctor \/ (pre = <<>> /\ post = <<>> /\ chk = 0)
     THEN \* nothing to merge; for constructors the own lists stay as they are
          [fh |-> fh, lh |-> lh, ns |-> nsp, err |-> "ok"]
-  ELSE \* fresh lists hold the merged contracts; a checker is created if the function has none
-       LET lh1 == Append(Append(Append(lh, pre), snap), post)
-           p == Len(lh) + 1  s == Len(lh) + 2  q == Len(lh) + 3
+  ELSE \* fresh lists hold the merged contracts; a checker is created if the function has none.
+       \* The inherited groups are copied (unless SwShareGroups): a group object shared with the base could be
+       \* appended to through the subclass's checker.
+       LET ninh == IF SwShareGroups \/ pre = <<>> THEN 0 ELSE Len(b.pre)
+           lh0 == CopyLists(lh, b.pre, 1, ninh)
+           pre1 == IF ninh = 0 THEN pre ELSE [i \in 1..ninh |-> Len(lh) + i] \o ownPre
+           lh1 == Append(Append(Append(lh0, pre1), snap), post)
+           p == Len(lh0) + 1  s == Len(lh0) + 2  q == Len(lh0) + 3
        IN IF chk # 0
             THEN [fh |-> [fh EXCEPT ![chk].pre = p, ![chk].snap = s, ![chk].post = q], lh |-> lh1, ns |-> nsp, err |-> "ok"]
             ELSE [fh |-> Append(fh, FnObj("chk", mem.f, p, s, q)), lh |-> lh1,
@@ -320,12 +332,32 @@ Deco ==
 NextStmt ==
   /\ pc = "next"
   /\ IF step < Len(hist.cls) /\ res[step] = "ok"      \* a rejected class statement ends the history
-       THEN step' = step + 1 /\ pc' = "members"
-       ELSE step' = step /\ pc' = "done"
-  /\ ns' = EmptyNs /\ di' = 1
+       THEN step' = step + 1 /\ pc' = "members" /\ di' = 1
+       ELSE IF res[step] = "ok" /\ hist.posthoc # <<>>
+         THEN step' = step /\ pc' = "posthoc" /\ di' = 1
+         ELSE step' = step /\ pc' = "done" /\ di' = 1
+  /\ ns' = EmptyNs
   /\ UNCHANGED <<hist, lst, fo, cl, regd, res>>
 
-DNext == Members \/ Meta \/ Create \/ Deco \/ NextStmt
+(* Decorating a member of an already created class after the fact:              *)
+(*     K.name = icontract.require(...)(K.name)                                  *)
+PostHoc ==
+  /\ pc = "posthoc"
+  /\ IF di > Len(hist.posthoc)
+       THEN pc' = "done" /\ UNCHANGED <<lst, fo, cl, di, res>>
+       ELSE LET ph  == hist.posthoc[di]
+                mem == Lookup(cl, ph.k, ph.name)
+                r   == ApplyDeco(fo, lst, mem.f, ph.d)
+            IN /\ di' = di + 1 /\ pc' = "posthoc"
+               /\ IF r.err = "ok"
+                    THEN /\ fo' = r.fh /\ lst' = r.lh
+                         /\ cl' = [cl EXCEPT ![ph.k].d = [x \in DOMAIN cl[ph.k].d \cup {ph.name} |->
+                                       IF x = ph.name THEN [kind |-> mem.kind, f |-> r.f, rb |-> FALSE] ELSE cl[ph.k].d[x]]]
+                    ELSE UNCHANGED <<fo, lst, cl>>
+               /\ res' = res
+  /\ UNCHANGED <<hist, step, ns, regd>>
+
+DNext == Members \/ Meta \/ Create \/ Deco \/ NextStmt \/ PostHoc
 
 DInitOf(h) ==
   /\ hist = h /\ step = 1 /\ pc = "members" /\ di = 1
